@@ -511,8 +511,9 @@ def classify(gen, reg, rev, literals):
             w["symptom"] = "wrong-line"
         elif "/" not in vfile and vfile.endswith(".go"):
             w["symptom"] = "unreversed"
-        elif re.fullmatch(r"[A-Za-z0-9_]+/[A-Za-z0-9_.]+", vfile) and os.path.basename(vfile) == os.path.basename(file):
-            w["symptom"] = "unreversed-dir"
+        elif re.fullmatch(r"[A-Za-z0-9_]+/[A-Za-z0-9_.]+", vfile) and os.path.dirname(vfile) != os.path.dirname(file) and \
+                (os.path.basename(vfile) == os.path.basename(file) or (vfile.endswith(".s") and file.endswith(".s"))):
+            w["symptom"] = "unreversed-dir"         # <hash of the import path>/file.go: the directory of a never-obfuscated package
         else:
             w["symptom"] = "other"
         out.append(w)
@@ -539,8 +540,8 @@ def run_bin(binp, args, timeout=300):
     return run([binp] + args, env=env, timeout=timeout)
 
 
-def reverse(sb, cfg, src, text, binary=False):
-    return sb.garble(cfg.gflags + ["reverse"] + cfg.bflags + ["."], cwd=src, stdin=text, timeout=600)
+def reverse(sb, cfg, src, text):
+    return sb.garble(cfg.gflags + ["reverse"] + cfg.bflags + ["."], cwd=src, stdin=text.encode("utf-8", "surrogateescape"), timeout=600)
 
 
 def compare_sets(chk, gen, cfg, what, regd, revd, files, stats, hop_outcomes, budget):
@@ -570,6 +571,9 @@ def compare_sets(chk, gen, cfg, what, regd, revd, files, stats, hop_outcomes, bu
 
 
 def report(chk, witness, files, what, stats, budget, extra=None):
+    cls = "|".join(f"{k}={witness[k]}" for k in ("observable", "point", "callee_kind", "construct", "literals", "symptom", "frame_pkg") if k in witness)
+    stats.setdefault("classes", {})
+    stats["classes"][cls] = stats["classes"].get(cls, 0) + 1
     known = any(finding_matches(k, witness) for k in chk.known)
     if not known:
         stats["unknown"] += 1
@@ -582,8 +586,13 @@ def report(chk, witness, files, what, stats, budget, extra=None):
     chk.violation(witness, f, what)
 
 
-def experiment(chk, gen, cfg, sb, src, root, regular_out, regular_panics, panic_tags, model_expect, budget):
-    stats = {"frames": 0, "differing": 0, "unknown": 0}
+PASS_INPUTS = (("crlf-nofinal", "plain text\r\nwith main.go:12 and example.com/x\r\nno newline at the end"),
+               ("empty-lines", "\n\n\t\n \r\n"), ("binaryish", "caf\u00e9 \x00\x01 z\n"))
+
+
+def collect(cfg, sb, src, root, regular_out, panic_tags, all_inputs=True):
+    """everything that talks to garble for one configuration (runs in a worker thread; no bookkeeping here)"""
+    d = {}
     tag = re.sub(r"[^a-z0-9]", "", cfg.name.lower()) or "default"
     binp = root / f"garbled_{tag}.bin"
     r = sb.garble(cfg.gflags + ["build"] + cfg.bflags + ["-o", str(binp), "."], cwd=src, timeout=1500)
@@ -592,10 +601,36 @@ def experiment(chk, gen, cfg, sb, src, root, regular_out, regular_panics, panic_
     g = run_bin(binp, ["all", "report"])
     if g.returncode != 0:
         raise Inconclusive(f"the garbled program ({cfg.name}) failed: rc={g.returncode}\n{g.stderr[-2000:]}")
-    rv = reverse(sb, cfg, src, g.stdout)
+    d["garbled"] = g.stdout
+    d["rev"] = reverse(sb, cfg, src, g.stdout)
+
+    def one(t):
+        return t, run_bin(binp, [t, "panic"])
+    with ThreadPoolExecutor(4) as ex:
+        runs = list(ex.map(one, panic_tags))
+    text = ""
+    for t, p in runs:
+        if p.returncode != 2:
+            raise Inconclusive(f"panic run of chain {t} ({cfg.name}) exits {p.returncode}")
+        text += f"=== {t} ===\n" + p.stderr
+    d["panics"] = text
+    d["rev_panics"] = reverse(sb, cfg, src, text) if text else None
+    crlf = g.stdout.replace("\n", "\r\n")
+    if crlf.endswith("\r\n"):
+        crlf = crlf[:-2]          # last line without a newline
+    d["crlf"] = crlf
+    d["rev_crlf"] = reverse(sb, cfg, src, crlf)
+    inputs = (("regular-trace", regular_out),) + (PASS_INPUTS if all_inputs else ())
+    d["pass"] = [(label, text, reverse(sb, cfg, src, text)) for label, text in inputs]
+    return d
+
+
+def judge(chk, gen, cfg, src, d, regular_out, regular_panics, model_expect, budget):
+    stats = {"frames": 0, "differing": 0, "unknown": 0}
+    rv = d["rev"]
     replay = {"commands.txt": f"cd src && garble {' '.join(cfg.gflags)} build {' '.join(cfg.bflags)} -o garbled . && ./garbled all report | garble {' '.join(cfg.gflags)} reverse {' '.join(cfg.bflags)} .\n"
                               f"go build -trimpath {' '.join(cfg.bflags)} -o regular . && ./regular all report\n",
-              "garbled.out": g.stdout, "reversed.out": rv.stdout, "reverse.stderr": rv.stderr, "regular.out": regular_out, "src": src}
+              "garbled.out": d["garbled"], "reversed.out": rv.stdout, "reverse.stderr": rv.stderr, "regular.out": regular_out, "src": src}
     if rv.returncode != 0:
         chk.violation({"observable": "exit-status", "config": cfg.name, "expected": 0, "got": rv.returncode}, replay,
                       what=f"{cfg.name}: garble reverse exits {rv.returncode} on a trace full of obfuscated names")
@@ -606,45 +641,29 @@ def experiment(chk, gen, cfg, sb, src, root, regular_out, regular_panics, panic_
     for part in ("frames", "stack"):
         compare_sets(chk, gen, cfg, part, {t: v[part] for t, v in regd.items()}, {t: v[part] for t, v in revd.items()},
                      lambda t: replay, stats, hop_outcomes, budget)
-    # nothing obfuscated may be left outside the frames we compared: the BEGIN/END/STACK skeleton must be identical
+    # the program's own marker lines must be untouched
     skel = lambda s: [l for l in s.split("\n") if l.startswith(("BEGIN ", "END ", "STACK"))]
     if skel(regular_out) != skel(rv.stdout):
         chk.violation({"observable": "skeleton", "config": cfg.name}, replay, what=f"{cfg.name}: the program's own marker lines changed through reverse")
-
     # panic traces (one process per chain, concatenated, reversed in one go)
-    def one(t):
-        p = run_bin(binp, [t, "panic"])
-        return t, p
-    with ThreadPoolExecutor(8) as ex:
-        runs = list(ex.map(one, panic_tags))
-    text = ""
-    for t, p in runs:
-        if p.returncode != 2:
-            raise Inconclusive(f"panic run of chain {t} ({cfg.name}) exits {p.returncode}")
-        text += f"=== {t} ===\n" + p.stderr
-    if text:
-        rvp = reverse(sb, cfg, src, text)
+    if d["rev_panics"] is not None:
+        rvp = d["rev_panics"]
         rp = dict(replay)
-        rp.update({"garbled.panics": text, "reversed.panics": rvp.stdout, "regular.panics": regular_panics})
+        rp.update({"garbled.panics": d["panics"], "reversed.panics": rvp.stdout, "regular.panics": regular_panics})
         if rvp.returncode != 0:
             chk.violation({"observable": "exit-status", "config": cfg.name, "expected": 0, "got": rvp.returncode}, rp,
                           what=f"{cfg.name}: garble reverse exits {rvp.returncode} on panic traces")
         compare_sets(chk, gen, cfg, "panic", parse_panics(regular_panics), parse_panics(rvp.stdout), lambda t: rp, stats, hop_outcomes, budget)
-
-    # line endings and pass-through with the real names of this build
-    crlf = g.stdout.replace("\n", "\r\n")
-    if crlf.endswith("\r\n"):
-        crlf = crlf[:-2]          # last line without a newline
-    rc = sb.garble(cfg.gflags + ["reverse"] + cfg.bflags + ["."], cwd=src, stdin=crlf.encode(), timeout=600)
+    # line endings: the same trace with CR LF and no final newline
+    rc = d["rev_crlf"]
     want = rv.stdout.replace("\n", "\r\n")
     want = want[:-2] if want.endswith("\r\n") else want
     chk.case([cfg.name, "crlf"])
     if rc.stdout != want or rc.returncode != rv.returncode:
-        chk.violation({"observable": "line-endings", "config": cfg.name}, {"input.txt": crlf, "got.txt": rc.stdout, "want.txt": want, "src": src},
+        chk.violation({"observable": "line-endings", "config": cfg.name}, {"input.txt": d["crlf"], "got.txt": rc.stdout, "want.txt": want, "src": src},
                       what=f"{cfg.name}: the same trace with CR LF endings and no final newline is not reversed to the same text with CR LF endings")
-    for label, passtext in (("regular-trace", regular_out), ("crlf-nofinal", "plain text\r\nwith main.go:12 and example.com/x\r\nno newline at the end"),
-                            ("empty-lines", "\n\n\t\n \r\n"), ("binaryish", "café \x00\x01 z\n")):
-        rp2 = sb.garble(cfg.gflags + ["reverse"] + cfg.bflags + ["."], cwd=src, stdin=passtext.encode(), timeout=600)
+    # pass-through of text without obfuscated names
+    for label, passtext, rp2 in d["pass"]:
         chk.case([cfg.name, "passthrough", label])
         if rp2.stdout != passtext:
             chk.violation({"observable": "pass-through", "config": cfg.name, "input": label}, {"input.txt": passtext, "got.txt": rp2.stdout, "src": src},
@@ -715,6 +734,7 @@ def choose_chains(model, tier, rng):
     longer = sorted((ch for ch in model["chains"] if len(ch) >= 2), key=lambda ch: (len(ch), ch))
     if tier == "quick":
         pairs = [ch for ch in longer if len(ch) == 2]
+        pairs = sorted(rng.sample(pairs, min(48, len(pairs))))      # quick: a seeded sample of the two-frame chains
         for ch in pairs:
             chains.append((list(ch), [rng.choice(cons) for _ in ch]))
     else:
@@ -758,7 +778,7 @@ def main(tier, seed):
     configs = [Config("default", [], []), Config("-literals", ["-literals"], []), Config(SEED_FLAG.split("=")[0], [SEED_FLAG], []),
                Config("-tags t", [], ["-tags", "t"])]
     sb = Sandbox(root / "sb", template=True)
-    n_panic = 40 if tier == "quick" else 200
+    n_panic = 24 if tier == "quick" else 200
     panic_tags = sorted(rng.sample(gen.entries, min(n_panic, len(gen.entries)))) + ["tag"]
 
     # regular builds (with and without the tag)
@@ -786,13 +806,17 @@ def main(tier, seed):
     build_garble("verif")
 
     def do(cfg):
+        return collect(cfg, sb, src, root, regular[" ".join(cfg.bflags)][0], panic_tags, all_inputs=(tier == "thorough" or cfg.name == "default"))
+    # the garble builds of the configurations run side by side (one GOCACHE / GARBLE_CACHE, as concurrent users do);
+    # all bookkeeping happens afterwards in this thread
+    with ThreadPoolExecutor(3) as ex:
+        collected = list(ex.map(do, configs))
+    log(f"garble builds, runs and reverse calls done at {time.time()-chk.t0:.0f}s")
+    for cfg, d in zip(configs, collected):
         ro, rp = regular[" ".join(cfg.bflags)]
-        return cfg.name, experiment(chk, gen, cfg, sb, src, root, ro, rp, panic_tags, model_expect, budget)
-    # the garble builds of the configurations run side by side (one GOCACHE / GARBLE_CACHE, as concurrent users do)
-    with ThreadPoolExecutor(2 if tier == "quick" else 2) as ex:
-        for name, st in ex.map(do, configs):
-            allstats[name] = st
-            log(f"config {name}: {st['frames']} frames compared, {st['differing']} differing, {st['unknown']} not known")
+        st = judge(chk, gen, cfg, src, d, ro, rp, model_expect, budget)
+        allstats[cfg.name] = st
+        log(f"config {cfg.name}: {st['frames']} frames compared, {st['differing']} differing, {st['unknown']} not known")
     chk.extra["configs"] = allstats
     mm = sum(len(s["model_mismatches"]) for s in allstats.values())
     if mm:
